@@ -400,13 +400,14 @@ where
         // (max(nodes.key), key) range
         let lt_high_nodes = split_off_lt(&mut page_ref.high_page, key);
 
-        // If existing the high page was split (both sides are non-empty) then
+        // If any part of the existing high page remains on the gte side
+        // (it was split, or moved to the gte side in its entirety) then
         // invalidate the page hash.
         //
         // This effectively invalidates the page range of the returned lt_page
-        // as the cached hash covers the high page (which has now been split,
+        // as the cached hash covers the high page (which has now lost nodes,
         // changing the content).
-        if lt_high_nodes.is_some() && page_ref.high_page.is_some() {
+        if page_ref.high_page.is_some() {
             page_ref.tree_hash = None;
         }
 
